@@ -36,6 +36,13 @@ smap = Function('smap', MapS, Sq, Sq)     # [M[x] for x in s]
 seqeq = Function('seqeq', Sq, Sq, B)     # sequence equality: as a hypothesis it yields term equality (sequences are extensional),
 eqw = Function('eqw', Sq, Sq, I)         # as a goal it is refuted by a witness index where the two differ
 
+# strings: only lengths, concatenation, slicing and hex(int) digits are modelled (DESIGN §2.2)
+strlen = Function('strlen', V, I)
+sconcat = Function('sconcat', V, V, V)
+sslice = Function('sslice', V, I, I, V)      # s[a:b] for 0<=a<=b<=len
+hexstr = Function('hexstr', I, V)            # hex(n)[2:]
+unhex = Function('unhex', V, I)
+
 None_ = Const('None_', V)
 True_ = Const('True_', V)
 False_ = Const('False_', V)
@@ -164,6 +171,14 @@ def axioms():
     M = Const('M', MapS)
     A('smap_len', ForAll([M, s], slen(smap(M, s)) == slen(s), patterns=[smap(M, s)]))
     A('smap_at', ForAll([M, s, i], Implies(And(0 <= i, i < slen(s)), at(smap(M, s), i) == Select(M, at(s, i))), patterns=[at(smap(M, s), i)]))
+    # strings
+    A('strlen_nonneg', ForAll([x], strlen(x) >= 0, patterns=[strlen(x)]))
+    A('sconcat_len', ForAll([x, y], strlen(sconcat(x, y)) == strlen(x) + strlen(y), patterns=[sconcat(x, y)]))
+    A('sslice_len', ForAll([x, a, b], Implies(And(0 <= a, a <= b, b <= strlen(x)), strlen(sslice(x, a, b)) == b - a), patterns=[sslice(x, a, b)]))
+    A('hexstr', ForAll([i], Implies(i >= 0, And(unhex(hexstr(i)) == i, strlen(hexstr(i)) >= 1,
+                                                 Implies(i < 16, strlen(hexstr(i)) == 1), Implies(i < 256, strlen(hexstr(i)) <= 2),
+                                                 Implies(i < 4096, strlen(hexstr(i)) <= 3), Implies(i < 65536, strlen(hexstr(i)) <= 4),
+                                                 Implies(i < 1048576, strlen(hexstr(i)) <= 5))), patterns=[hexstr(i)]))
     # boxing
     A('ibox', ForAll([i], And(iunbox(ibox(i)) == i, is_int(ibox(i)), Not(is_ref(ibox(i))), Not(is_tup(ibox(i))), truthy(ibox(i)) == (i != 0)), patterns=[ibox(i)]))
     A('iunbox', ForAll([x], Implies(is_int(x), ibox(iunbox(x)) == x), patterns=[iunbox(x)]))
